@@ -457,3 +457,26 @@ Proof.
   destruct (H2 Hh Ho) as [K|K]; [|lia]. split; [exact K|]. rewrite K in H1.
   destruct (n_hrel (getn (s_nodes s) n)); [simpl in H1; lia | congruence].
 Qed.
+
+(** the two places where the release of a node is decided (graph.go:129 and :163) decide it only when the node
+    has no dependant left *)
+Lemma release_decided_only_when_no_dependant :
+  (forall g from n g', g_rel_dep g from n = (g', true) -> n_out (getn g' from) = []) /\
+  (forall g n to g' linked shinv, g_add_out g n to = (g', (linked, shinv, true)) -> n <> to -> n_out (getn g' n) = []).
+Proof.
+  split.
+  - intros g from n g' H. unfold g_rel_dep in H. inversion H; subst; clear H. rewrite getn_setn.
+    destruct (Nat.eqb from from && Nat.ltb from (length g)) eqn:E.
+    + simpl. apply is_nil_true. assumption.
+    + rewrite Nat.eqb_refl in E. simpl in E. apply Nat.ltb_ge in E. rewrite getn_out_of_range by exact E. reflexivity.
+  - intros g n to g' linked shinv H Nq. unfold g_add_out in H.
+    assert (Nq' : Nat.eqb to n = false) by (apply Nat.eqb_neq; congruence).
+    destruct (negb (n_rel (getn g to))); inversion H; subst; clear H.
+    + rewrite !getn_setn, !length_setn. rewrite Nq'. simpl.
+      destruct (Nat.eqb n n && Nat.ltb n (length g)) eqn:E.
+      * simpl. apply is_nil_true. assumption.
+      * rewrite Nat.eqb_refl in E. simpl in E. apply Nat.ltb_ge in E. rewrite getn_out_of_range by exact E. reflexivity.
+    + rewrite getn_setn. destruct (Nat.eqb n n && Nat.ltb n (length g)) eqn:E.
+      * simpl. apply is_nil_true. assumption.
+      * rewrite Nat.eqb_refl in E. simpl in E. apply Nat.ltb_ge in E. rewrite getn_out_of_range by exact E. reflexivity.
+Qed.
